@@ -1,5 +1,6 @@
 import KoordVerif.Proofs.C17Flow
 import KoordVerif.Proofs.C17ExtNode
+import KoordVerif.Proofs.C17ExtRead
 /-
 C17 — migration jobs evict only after capacity is secured; finished jobs stay finished.
 
@@ -167,17 +168,20 @@ theorem not_sameNodeFree_of {w : World} {ops : List Op}
   · cases hsn
 
 /-- faulty witness.  Writes of the first reconcile: ReservationCreated (bit 0), ReservationScheduled (bit 1), Evict
-    (bit 2, fails); the pod is re-created (new uid) on the reservation's node 1; the retry evicts it. -/
+    (bit 2, fails); the reservation is then re-scheduled onto the pod's node 3 (a re-created reservation); the retry
+    evicts the pod from that very node.  (Until df70d80 a same-name replacement pod landing on the reservation's node
+    was a second way; the uid comparison of evictPod now aborts that one.) -/
 theorem evict_node_differs_counterexample :
-    ¬ SameNodeFree cexWorld [.recon 4, .pod (some ⟨2, 1, 2, 0, false⟩), .recon 0] :=
+    ¬ SameNodeFree cexWorld [.recon 4, .resv (some ⟨RPh.available, 3, 1, 0, false, 0, false, true, false⟩), .recon 0] :=
   not_sameNodeFree_of (by decide)
 
-/-- fault-free witness: the job records node 1 while the reservation is in pending-pod mode (no eviction in that
-    mode); the reservation is then re-created in normal mode, still on node 1, where the pod meanwhile runs. -/
+/-- fault-free witness: a pending (unscheduled) target pod; the job records node 1 while the reservation is in
+    pending-pod mode (no eviction in that mode); the pod is then scheduled onto node 1 and the reservation is
+    re-created in normal mode, still on node 1. -/
 theorem evict_node_differs_faultfree_counterexample :
     ¬ SameNodeFree { cexWorld with env := { cexWorld.env with
-          resv := some ⟨RPh.available, 1, 1, 0, false, 0, true, true, false⟩ } }
-        [.recon 0, .pod (some ⟨2, 1, 2, 0, false⟩),
+          pod := some ⟨1, 0, 1, 0, true⟩, resv := some ⟨RPh.available, 1, 1, 0, false, 0, true, true, false⟩ } }
+        [.recon 0, .pod (some ⟨1, 1, 2, 0, false⟩),
          .resv (some ⟨RPh.available, 1, 1, 0, false, 0, false, true, false⟩), .recon 0] :=
   not_sameNodeFree_of (by decide)
 
@@ -203,11 +207,12 @@ theorem evict_node_differs_restricted_fresh (ops : List Op) (w : World) (h : NCs
     with a failed Evict call, a same-node pod UPDATE and a reservation update after the node was recorded, in which
     the retry does evict -/
 theorem restricted_excludes_counterexamples :
-    restricted cexWorld [.recon 4, .pod (some ⟨2, 1, 2, 0, false⟩), .recon 0] = false ∧
-    restricted { cexWorld with env := { cexWorld.env with resv := some ⟨RPh.available, 1, 1, 0, false, 0, true, true, false⟩ } }
-        [.recon 0, .pod (some ⟨2, 1, 2, 0, false⟩), .resv (some ⟨RPh.available, 1, 1, 0, false, 0, false, true, false⟩), .recon 0] = false ∧
-    restricted cexWorld [.recon 4, .pod (some ⟨2, 3, 2, 0, false⟩), .resv (some ⟨RPh.available, 1, 1, 7, false, 0, false, true, false⟩), .recon 0] = true ∧
-    (run cexWorld [.recon 4, .pod (some ⟨2, 3, 2, 0, false⟩), .resv (some ⟨RPh.available, 1, 1, 7, false, 0, false, true, false⟩), .recon 0]).2.length = 2 := by
+    restricted cexWorld [.recon 4, .resv (some ⟨RPh.available, 3, 1, 0, false, 0, false, true, false⟩), .recon 0] = false ∧
+    restricted { cexWorld with env := { cexWorld.env with
+          pod := some ⟨1, 0, 1, 0, true⟩, resv := some ⟨RPh.available, 1, 1, 0, false, 0, true, true, false⟩ } }
+        [.recon 0, .pod (some ⟨1, 1, 2, 0, false⟩), .resv (some ⟨RPh.available, 1, 1, 0, false, 0, false, true, false⟩), .recon 0] = false ∧
+    restricted cexWorld [.recon 4, .pod (some ⟨1, 3, 2, 0, false⟩), .resv (some ⟨RPh.available, 1, 1, 7, false, 0, false, true, false⟩), .recon 0] = true ∧
+    (run cexWorld [.recon 4, .pod (some ⟨1, 3, 2, 0, false⟩), .resv (some ⟨RPh.available, 1, 1, 7, false, 0, false, true, false⟩), .recon 0]).2.length = 2 := by
   decide
 
 /-! ### clause 2 — terminal phases are absorbing -/
@@ -350,6 +355,54 @@ theorem evict_at_most_once (ops : List Op) :
       refine ⟨by simpa using i1, fun hw => ?_⟩
       simp only [List.nil_append]
       exact i2 (by rw [e1]; exact hw)
+
+/-! ### extended model: API reads fail, the environment changes INSIDE a reconcile (Model/C17Read.lean)
+
+`reconcileX w ⟨f, rf, evs⟩`: write-fault mask `f`, read-fault mask `rf` (any Get of job / pod / reservation / bound pod,
+incl. the APIReader retry and the lookup inside evictPod), scripted events `evs` applied right before the k-th API call.
+`GoodX w s` (Proofs/C17ExtRead.lean) is what holds at the instant of every `Evict` call. -/
+
+/-- **read_faults_evict_secured** (clause 1 under read faults and check-then-act races).  Whatever fails and whatever
+    the environment does between two reads: at every `Evict` call EVERY reservation lookup of that reconcile has been
+    answered with an object (`looks` all 0 — never after a failed / NotFound lookup), the object doMigrate fetched for
+    its gates was not pending, not expired, scheduled or preempted-for, not in pending-pod mode, the object of the last
+    lookup (inside evictPod) was not consumed, the pod handed over exists and is the job's target (recorded uid), and
+    neither the in-memory nor the persisted job is Failed/Succeeded. -/
+theorem read_faults_evict_secured (w : World) (sc : Script) : ∀ s ∈ (reconcileX w sc).2.evicts, GoodX w s :=
+  evictX_good w sc
+
+theorem read_faults_evict_once (w : World) (sc : Script) : (reconcileX w sc).2.evicts.length ≤ 1 := evictX_once w sc
+
+/-- clause `C17:evict-unsecured:lookup-failed`, over all histories -/
+theorem read_faults_lookups_answered (ops : List OpX) :
+    ∀ w : World, ∀ s ∈ (runX w ops).2, ∀ l ∈ s.looks, l = 0 := evict_lookups_answered_history ops
+
+/-- **failed_job_never_evicts**, all histories incl. read faults and events inside a reconcile: the evictor is never
+    called with / for a job that is Failed or Succeeded — not even by the reconcile that is marking it Failed -/
+theorem read_faults_failed_job_never_evicts (ops : List OpX) :
+    ∀ w : World, ∀ s ∈ (runX w ops).2, livePhase s.mem.status.phase = true ∧ livePhase s.api.status.phase = true :=
+  failed_job_never_evictsX ops
+
+/-- clause `C17:evicted-not-target`: the evicted pod is the job's target, never a same-name replacement -/
+theorem read_faults_evict_target_only (ops : List OpX) :
+    ∀ w : World, ∀ s ∈ (runX w ops).2, ∀ p, s.pod = some p → s.mem.spec.podUID = 0 ∨ p.uid = s.mem.spec.podUID :=
+  evict_target_only_history ops
+
+theorem read_faults_terminal_forever (ops : List OpX) :
+    ∀ w : World, livePhase w.job.status.phase = false → (runX w ops).1.job.status = w.job.status ∧ (runX w ops).2 = [] :=
+  terminalX_forever ops
+
+/-! ### mode dispatch (controller.go:315, tied by `tie_direct_dispatch`) -/
+
+/-- an explicit `Spec.Mode` wins over `args.DefaultJobMode` … -/
+theorem effDirect_explicit_wins (mode dflt : Nat) (h : mode ≠ 0) : effDirect mode dflt = (mode == 2) := by
+  unfold effDirect
+  have : (mode == 0) = false := by simpa using h
+  simp [this]
+
+/-- … and an empty one takes the default -/
+theorem effDirect_empty_takes_default (dflt : Nat) : effDirect 0 dflt = (dflt == 2) := by
+  simp [effDirect]
 
 /-! ### non-vacuity -/
 
